@@ -52,7 +52,7 @@ type replayFile struct {
 func violationToReplay(prop string, unit *CheckSpec, v *violation, overlayTag string) *replayFile {
 	rf := &replayFile{Property: prop, Package: unit.Package, Entry: v.Job.name, Cases: v.Job.cases, Overlay: overlayTag,
 		Decisions: decString(v.Decisions), Log: v.Decisions, Detail: v.Detail, Stack: v.Stack,
-		EngineOnly: v.Threads || v.Kind == "unsafe" || v.Kind == "race"}
+		EngineOnly: v.Threads || v.Kind == "unsafe" || v.Kind == "race" || v.Kind == "pool"}
 	for _, rv := range v.Vals {
 		var val uint64
 		if rv.T.IsConst() {
